@@ -1375,7 +1375,8 @@ impl Scenario for FilterWrite {
         "case = well-framed stream (arbitrary headers and payload sizes, packet counts incl. 0, 1 and the batch \
          multiples, 1..6 interleaved links; 1 in 12 a sample file of the repository) x one filter kind (link / FEE / \
          layer-stave) x destination (file / stdout) x source (file / pipe); in a third of the cases the destination \
-         and statistics files already exist with unrelated content (stored state of an earlier run). The filter is run for EVERY distinct value of that kind present in the stream plus \
+         and statistics files already exist with unrelated content (stored state of an earlier run); 1 in 8 with a custom \
+         expectation about the run that fails at its end, 1 in 16 into a file whose name is the word `stdout`. The filter is run for EVERY distinct value of that kind present in the stream plus \
          one absent value, under seeded schedules, capped reader->writer queue and benign short reads / short writes \
          / EINTR. Oracle: output bytes == concatenation in input order of the walker's matching packets; outputs over \
          all distinct values total the input size (partition); each output walks cleanly; filtering an output again \
@@ -1450,11 +1451,21 @@ impl Scenario for FilterWrite {
         let filters: Vec<Vec<String>> = values.iter().map(|f| f.args()).collect();
         let to_file = rng.chance(1, 2);
         let im = pick_input_mode(&mut rng);
+        let n_pkts = w.pkts.len();
         let mut base = specgen::spec(im.clone(), &[], input);
         if rng.chance(1, 3) {
             // the destination file exists already (left by an earlier run with another filter)
             base.stale_outputs = Some(rng.next_u64());
         }
+        // 1 in 8: an expectation about the whole run (custom checks file) that does not hold - an error is
+        // counted and reported at the end of the run, the filtered bytes stay what they are
+        let custom_fail = rng.chance(1, 8);
+        if custom_fail {
+            base.argv.extend(s(&["-c", "@CHECKS@"]));
+            base.custom_checks_toml = Some(format!("cdps = {}\n", n_pkts + 1 + rng.usize_below(3)));
+        }
+        // 1 in 8 of the file destinations: the file's name is the word `stdout` (in a directory)
+        let named_stdout = to_file && rng.chance(1, 8);
         if rng.chance(3, 4) {
             swarm_schedule(&mut base, &mut rng, 300 + n as u64 * 3);
         }
@@ -1462,10 +1473,17 @@ impl Scenario for FilterWrite {
             benign_io(&mut base, &mut rng);
         }
         let label = format!(
-            "{} | {} | {}{}",
+            "{} | {} | {}{}{}",
             ["link", "fee", "stave"][kind as usize],
-            if to_file { "to file" } else { "to stdout" },
+            if named_stdout {
+                "to file named stdout"
+            } else if to_file {
+                "to file"
+            } else {
+                "to stdout"
+            },
             if im == InputMode::File { "from file" } else { "from pipe" },
+            if custom_fail { " | run expectation fails" } else { "" },
             if complete { " | partition" } else { "" }
         );
         Trial::FilterWrite { base, filters, to_file, label }
@@ -1495,7 +1513,7 @@ impl Scenario for StatsTruth {
          matching the filter, payload bytes, sorted links, FEE IDs in first-seen order, run trigger type, RDH version, \
          data format, system ID; in check and view modes heartbeat frames, layer/stave pairs and all 20 per-bit \
          trigger counts over analysed packets; total_errors == number of messages, unique codes == codes in the \
-         messages; report rows Total RDHs / Total HBFs / Total Errors agree with the file. Non-trivial: >= 2 packets \
+         messages (1 in 6 check runs with end-of-run expectations from a custom checks file, whose messages count too); report rows Total RDHs / Total HBFs / Total Errors agree with the file. Non-trivial: >= 2 packets \
          and >= 3 threads."
             .into()
     }
@@ -1625,9 +1643,26 @@ impl Scenario for StatsTruth {
         if rng.chance(1, 4) {
             parts.push("-m".into());
         }
+        // 1 in 6 of the check runs: expectations about the whole run (packet count, physics triggers) that hold or
+        // not - their messages ([E9001], [E9002]) are produced after the last packet and count like any other
+        let run_expect = analysed && parts[0] == "check" && rng.chance(1, 6);
+        let mut toml = String::new();
+        if run_expect {
+            parts.extend(s(&["-c", "@CHECKS@"]));
+            let n_seen = walk(&input).pkts.len() as u64;
+            if rng.chance(2, 3) {
+                toml.push_str(&format!("cdps = {}\n", if rng.chance(1, 3) { n_seen } else { n_seen + 1 + rng.below(5) }));
+            }
+            if toml.is_empty() || rng.chance(1, 2) {
+                toml.push_str(&format!("triggers_pht = {}\n", rng.below(4)));
+            }
+        }
         let im = pick_input_mode(&mut rng);
         let mut spec = specgen::spec(im, &parts, input);
         spec.stats_ext = ext.to_string();
+        if run_expect {
+            spec.custom_checks_toml = Some(toml);
+        }
         if rng.chance(1, 4) {
             spec.stale_outputs = Some(rng.next_u64());
         }
@@ -1638,6 +1673,7 @@ impl Scenario for StatsTruth {
             benign_io(&mut spec, &mut rng);
         }
         let label = if from_corpus { format!("{label} | sample files") } else { label };
+        let label = if run_expect { format!("{label} | run expectations") } else { label };
         Trial::StatsTruth { spec, analysed, label }
     }
 }
